@@ -165,7 +165,9 @@ var jsonAlphabet = []byte(`{}[]":,0nt ae`)
 
 func malFamily(name string, w *MalformedWorld, tier string) []malCase {
 	var out []malCase
-	add := func(id string, raw []byte, framed bool) { out = append(out, malCase{id: name + ":" + id, raw: raw, framed: framed}) }
+	add := func(id string, raw []byte, framed bool) {
+		out = append(out, malCase{id: name + ":" + id, raw: raw, framed: framed})
+	}
 	switch name {
 	case "short": // every byte string of length <= 2, every string of length 3 over a JSON alphabet
 		add("empty", []byte{}, true)
@@ -337,7 +339,9 @@ type C12Arg struct {
 	Chunks int
 }
 
-func (a C12Arg) Name() string { return fmt.Sprintf("malformed/%s/%s/chunk%d.%d", a.Entry, a.Family, a.Chunk, a.Chunks) }
+func (a C12Arg) Name() string {
+	return fmt.Sprintf("malformed/%s/%s/chunk%d.%d", a.Entry, a.Family, a.Chunk, a.Chunks)
+}
 
 func runC12Unit(c *explore.Ctx) {
 	var a C12Arg
